@@ -260,6 +260,29 @@ class AV(object):
             out.append('the empty string')
         return out
 
+    def falsy_part(self):
+        a = AV()
+        a.none = self.none
+        if self.s == 'e':
+            a.s = 'e'
+        if self.i == 'z':
+            a.i = 'z'
+        if self.lst and self.lst[1]:
+            a.lst = [self.lst[0].copy(), True, False]
+        a.top = self.top
+        return a
+
+    def truthy_part(self):
+        a = self.copy()
+        a.none = False
+        if a.s:
+            a.s = 'ne'
+        if a.i:
+            a.i = 'nz'
+        if a.lst:
+            a.lst[1] = False
+        return a
+
     def always_none(self):
         return self.none and not (self.s or self.i or self.tuples or self.lst or self.dct or self.top)
 
@@ -465,6 +488,10 @@ class ActionEval(object):
                     av = self.av_of(x)
                     if av is not None and not av.top and isinstance(y.v, str) and not av.s:
                         return False  # a value that is never a string cannot equal a string constant
+                    sym = self.rhs[x.i - 1] if 0 < x.i <= len(self.rhs) else None
+                    if sym in ('UPPERCASE_IDENTIFIER', 'LOWERCASE_IDENTIFIER') and isinstance(y.v, str) and \
+                            y.v in (self.reserved_words or ()):
+                        return False  # a reserved word is never lexed as an identifier
             return v
         av = self.av_of(v)
         if av is not None:
@@ -477,6 +504,7 @@ class ActionEval(object):
         return v
 
     token_words = None  # set by the caller: token type -> set of source words (keyword terminals)
+    reserved_words = None
 
     def token_text(self, i):
         sym = self.rhs[i - 1] if 0 < i <= len(self.rhs) else None
@@ -544,6 +572,8 @@ class ActionEval(object):
                 return IsNone(a, isinstance(e.ops[0], ast.IsNot))
             if isinstance(e.ops[0], ast.In) and isinstance(b, DictT):
                 return Opaque('in-dict')
+            if isinstance(e.ops[0], (ast.In, ast.NotIn)):
+                return Opaque('in', [a, b])
             raise Unsupported('compare %s' % norm(e))
         if isinstance(e, ast.BoolOp):
             cur = self.ev(e.values[0])
@@ -669,7 +699,13 @@ def term_av(t, sym_av, depth=0):
         return a
     if isinstance(t, Cond):
         a = term_av(t.a, sym_av, depth + 1)
-        a.join(term_av(t.b, sym_av, depth + 1))
+        b = term_av(t.b, sym_av, depth + 1)
+        # `X if X else Y` / `Y if X else X`: the branch that repeats the tested value sees only its truthy/falsy part
+        if repr(t.a) == repr(t.test):
+            a = a.truthy_part()
+        if repr(t.b) == repr(t.test):
+            b = b.falsy_part()
+        a.join(b)
         return a
     return av_top()
 
@@ -705,6 +741,7 @@ class GrammarShapes(object):
     def eval_prod(self, p):
         ev = ActionEval(p.fn, p.rhs, self.sym_av)
         ev.token_words = self.token_words
+        ev.reserved_words = set(self.d.reserved)
         term = ev.run()
         return term, ev.truth_tests
 
